@@ -8,6 +8,7 @@ import PhQVerif.Core.Lex
 import PhQVerif.Core.Angle
 import PhQVerif.Core.Direction
 import PhQVerif.Core.UnitCheck
+import PhQVerif.Core.Serial
 import PhQVerif.Generated.Tables
 import PhQVerif.Generated.Kernels
 
@@ -102,6 +103,11 @@ def C08unit (u : UnitType) : Bool := checkEnumTables true u
 def C08plain (u : UnitType) : Bool := checkEnumTables false u
 /-- C08: every spelling denotes the magnitude of the enumerator it maps to. -/
 def C08spell (u : UnitType) : Bool := checkSpellings u
+/-- C15: a serialisation entry builds exactly the template of its form. -/
+def C15serial (row : Entry × Option Entry) : Bool := Serial.checkSerial classes unitTypes row
+/-- C15: `operator<<` writes what `Print()` returns. -/
+def C15stream (row : Entry × Option Entry) : Bool := Serial.checkStream row
+
 /-- C01: kernel constants within `4 · 2^-p` of the oracle's exact factor. -/
 def C01 (fm : Fm) (uk : UnitType × UnitKernels) : Bool := checkKernels fm 4 uk.1 uk.2
 
